@@ -108,6 +108,14 @@ CLAIMS['C05'] = dict(
           'notifications not modelled), reinit while threads are inside, Substrate.cpp barrier selection. Trusted: interference stubs gv_cells.h / gv_sc.h, spin loop = blocking wait in the bounded runs, '
           'flag array capacity 4 instead of 32 in the dissemination runs.'))
 
+CLAIMS['C17'] = dict(
+    text=('Proof, per function, of the FIRST HALF of the property for memory-copyable data only: SerializeBuffer insert/insertAt/encomber/push, DeSerializeBuffer extract/pop/r_size/r_linearData/atAlignment/getOffset/setOffset '
+          'and its constructor from a SerializeBuffer, gSerializeObj/gDeserializeObj for uint64/uint32/uint8/double, gSerializeLinearSeq/gDeserializeLinearSeq for PODResizeableArray<uint64_t> (aligned and unaligned branch; thorough tier) '
+          'are extracted from Serialize.h and verified on top of the real, inlined PODResizeableArray bodies: exactly the bytes of the value (count, then elements) are appended / consumed in order at any buffer offset and alignment, '
+          'the offset advances by exactly the bytes produced, earlier bytes are kept.  The uint64 round trip through the whole real call chain is a lemma unit whose only loop (capacity doubling) is unwound completely.'),
+    note=('The second half of C17 (network: exactly-once, ordered, intact delivery; host barriers) is NOT decided, nor is serialisation of non-memory-copyable types (strings, tuples, pairs, deques, std::vector, bitsets, Galois containers '
+          'other than PODResizeableArray, nested buffers).  libdist is not built in this configuration: the header is verified as text.  Trusted: hand-chosen overloads, realloc/copy stubs, CBMC\'s address model for atAlignment, buffers <= 2^30 bytes.'))
+
 NA = {
     'C01': 'schedule/worklist-policy property of deeply templated executors (histories of several threads); outside CBMC\'s C++ reach and not a per-call contract',
     'C07': 'relation between different executions (determinism across schedules/thread counts) of a ~1000-line template executor; no single-call contract expresses it',
